@@ -238,7 +238,7 @@ func ruleC03LoaderOnMiss(c *Ctx) {
 	cleared := false
 	if a, ok := arg.(*ssa.Alloc); ok && a.Referrers() != nil {
 		for _, r := range *a.Referrers() {
-			if fa, ok := r.(*ssa.FieldAddr); ok && core.StructField(fa.X.Type(), fa.Field).Name() == "Fragment" && fa.Referrers() != nil {
+			if fa, ok := r.(*ssa.FieldAddr); ok && core.CanonFieldOf(fa.X.Type(), fa.Field) == "Fragment" && fa.Referrers() != nil {
 				for _, r2 := range *fa.Referrers() {
 					if st, ok := r2.(*ssa.Store); ok {
 						if s, ok := constString(st.Val); ok && s == "" && core.Dominates(st, m.loaderFI().Top()) {
